@@ -15,7 +15,7 @@
    Decimal.  PARTIAL: the magnitude / phase columns and the per-table use of
    the formatter are checked by the oracle on real reports. *)
 From Coq Require Import ZArith NArith List Bool Arith Reals.
-From PM Require Import Base.Num Base.Cplx Model.Format Model.Topology Model.Report Proofs.FormatP Proofs.FormatR Proofs.FormatT Proofs.ReportS.
+From PM Require Import Base.Num Base.RNum Base.Cplx Gen.Extracted Model.Format Model.Topology Model.Report Proofs.FormatP Proofs.FormatR Proofs.FormatT Proofs.ReportS Proofs.PeakP.
 Import ListNotations.
 Local Open Scope R_scope.
 
@@ -102,3 +102,14 @@ Theorem C19_current_block :
     /\ (length (end_rows (end_line t I i false)) <= 1)%nat /\ (length (end_rows (end_line t I i true)) <= 1)%nat.
 Proof. intros N. exact current_block_rows_proof. Qed.
 Print Assumptions C19_current_block.
+
+(* the MAXIMUM OR PEAK FIELD line of the near-field tables (formula extracted from the source, translator item X22): at
+   every instant theta = omega t the length of the real field vector Re (F e^{j theta}) is at most the printed value
+   (p2 = sum |F_i|^2, p1 = sum F_i^2 of the three complex components F_i = x_i + j y_i) *)
+Theorem C19_peak_bounds_the_instantaneous_field :
+  forall x1 y1 x2 y2 x3 y3 theta : Rdefinitions.R,
+    let p2 := (x1 * x1 + y1 * y1 + (x2 * x2 + y2 * y2) + (x3 * x3 + y3 * y3))%R in
+    let p1 : @Cx RNum := ((x1 * x1 - y1 * y1) + (x2 * x2 - y2 * y2) + (x3 * x3 - y3 * y3), 2 * x1 * y1 + 2 * x2 * y2 + 2 * x3 * y3)%R in
+    (inst_sq x1 y1 x2 y2 x3 y3 theta <= Rsqr (@nf_peak RNum p1 p2))%R.
+Proof. exact peak_bounds_instant. Qed.
+Print Assumptions C19_peak_bounds_the_instantaneous_field.
